@@ -5,7 +5,7 @@ from concurrent.futures import ProcessPoolExecutor
 
 import numpy as np
 
-from .. import common as C, gen, scen
+from .. import common as C, gen, scen, translators
 from ..common import tok_f, tok_opt
 from ..runner import Check
 from . import drvgen, drvcommon as D
@@ -182,7 +182,7 @@ def scenarios(r, n):
 
 
 def run():
-    chk = Check("C13")
+    chk = Check("C13", props_modules=["GFO.Props.C13", "GFO.Gen.StopGenCheck"], gen_steps=(translators.gen_stop,))
     chk.build_and_audit()
     r = C.rng("C13")
     quick = C.tier() != "thorough"
